@@ -2,6 +2,7 @@
 __copyright__ = 'Copyright 2013-2020, http://radical.rutgers.edu'
 __license__   = 'MIT'
 
+import os
 import copy
 import time
 
@@ -197,7 +198,12 @@ class Flux(AgentExecutingComponent) :
         if state == rps.AGENT_STAGING_OUTPUT_PENDING:
 
             if not task.get('target_state'):
-                task['exit_code'] = event.context.get('status', 1)
+                # flux reports the wait status of the job shell
+                status = event.context.get('status', 1)
+                if os.WIFSIGNALED(status):
+                    task['exit_code'] = -os.WTERMSIG(status)
+                else:
+                    task['exit_code'] = os.WEXITSTATUS(status)
                 if task['exit_code']: task['target_state'] = rps.FAILED
                 else                : task['target_state'] = rps.DONE
 
